@@ -15,7 +15,8 @@ CHECKS = {
                 'of particular values (NaN, extremes, UTF-8 bytes) through libhdf5 conversion is NOT decided.'
                 ' Added: R-GETTER, R-GROW (value data sets have no fixed maximum), R-DCPL, R-MEMTYPE, R-NULL-CSTR.'
                 ' Round 6: Property/Section setters hand the given value to the backend verbatim or through the tabled normaliser (R-SETVERB).'
-                ' Round 7: R-GETVERB, R-STOREVERB; no rejection after a mutation in Property/Section entry points (R-MBT slice).',
+                ' Round 7: R-GETVERB, R-STOREVERB; no rejection after a mutation in Property/Section entry points (R-MBT slice).'
+                ' Round 8: R-STRIO verbatim clause, R-STRBUF.',
     },
     'C15': {
         'technique': 'static analysis: cell codec table agreement (Janus copyValue/copyData vs. to_data_type<T>), def-use rule for compound '
@@ -31,7 +32,8 @@ CHECKS = {
                 'and the zero/empty fill of unwritten cells are libhdf5 behaviour: NOT decided.'
                 " Added: Janus member-of-cell clause, writeCells transfers the caller's list, R-STRIO, R-DCPL, R-GROW, R-MEMTYPE, R-SWAP, R-NULL-CSTR."
                 ' Round 6: column names and units are written and read back verbatim (R-DF-SCHEMA verbatim clause).'
-                ' Round 7: text- and index-keyed overloads default the same trailing parameters (R-DF-OVERLOAD).',
+                ' Round 7: text- and index-keyed overloads default the same trailing parameters (R-DF-OVERLOAD).'
+                ' Round 8: R-EXACTCMP.',
     },
     'C01': {
         'technique': 'static analysis: writer/reader table agreement (DataType <-> HDF5 file/memory type, decoder, element size, to_data_type<T>) by '
@@ -47,7 +49,8 @@ CHECKS = {
                 'regions) is NOT decided.'
                 ' Added during seeding rounds: string marshalling pairs element i with element i and defines every element (R-STRIO); Compression is forwarded down to the data set creation (R-FORWARD-COMP); data set creation / access / transfer property lists carry no setting from a deny list (fill time, fill value, lossy filters) (R-DCPL); resized data sets have no fixed maximum (R-GROW); raw transfers get a memory type made from the buffer element type (R-MEMTYPE) in the right argument positions (R-ROLE, R-SWAP); backend objects cache nothing (R-NOCACHE).'
                 ' Round 6: every normally returning path of DataArrayHDF5::write/read performs the data set transfer (R-IOPATH).'
-                ' Round 7: convertData converts on every returning path; appendData compares shapes, not element counts (R-APPEND).',
+                ' Round 7: convertData converts on every returning path; appendData compares shapes, not element counts (R-APPEND).'
+                ' Round 8: setExtent hands the shape to H5Dset_extent on every path (R-SETEXTENT); calibrated reads refuse String (guards D29).',
     },
     'C02': {
         'technique': 'static analysis: storage-key agreement rule per backend field (setter / clearing overload / getter / creating constructor / '
@@ -62,7 +65,8 @@ CHECKS = {
                 'operation histories (a model comparison over runtime states) is NOT decided.'
                 " Added: optional getters report 'not set' only for an absent key (R-GETTER); const backend methods never write (R-GETPURE); lookup tables in backend objects are coherent, no member is filled lazily, optGroup never answers 'absent' from memory (R-NOCACHE); index access iterates the creation-order index increasingly (R-ORDER); file property lists carry no denied setting (R-FAPL)."
                 ' Round 6: the time stamp text codec is time-zone/locale independent and parser and formatter agree (R-TIMECODEC).'
-                ' Round 7: front-end setters/getters and backend stores are verbatim (R-SETVERB, R-GETVERB, R-STOREVERB); all constructors of a backend class bind a container member to the same group name (R-CTORPAIR); H5Object releases its id unconditionally (R-HIDREL).',
+                ' Round 7: front-end setters/getters and backend stores are verbatim (R-SETVERB, R-GETVERB, R-STOREVERB); all constructors of a backend class bind a container member to the same group name (R-CTORPAIR); H5Object releases its id unconditionally (R-HIDREL).'
+                " Round 8: no run-time written function-static state (R-NOSTATIC); the string transfer functions do not touch the caller's strings (R-STRBUF, R-STRIO verbatim).",
     },
     'C03': {
         'technique': 'static analysis: dominance-based validate-before-create rule over clang AST/CFG facts (custom checker)',
@@ -71,7 +75,8 @@ CHECKS = {
                 'backend create call (R-VAL). It does not decide lookup/count/order agreement for runtime histories.'
                 ' Added: a child linked under the queried name is always found before any id search (R-NAMEFIRST); backend objects keep no stale lookup tables (R-NOCACHE); name/id filter predicates compare the attribute exactly (R-FILTER).'
                 ' Round 6: attribute searches accept a child only under exact equality (R-ATTRSEARCH); Identity carries the given name/id verbatim (R-IDENT).'
-                ' Round 7: get-name buffers have (queried length + 1) elements (R-NAMEBUF); text lookups go through the name-first helpers (R-LOOKUP-VIA).',
+                ' Round 7: get-name buffers have (queried length + 1) elements (R-NAMEBUF); text lookups go through the name-first helpers (R-LOOKUP-VIA).'
+                ' Round 8: R-STRBUF; whole-string, case-sensitive comparisons only (R-EXACTCMP).',
     },
     'C10': {
         'level': 'proof',
@@ -101,7 +106,8 @@ CHECKS = {
                 'content preservation themselves are libhdf5 behaviour: not decided.'
                 ' Added: raw HDF5 ids reach their owner before anything can throw (R-HIDOWN); file property list deny list (R-FAPL); const backend methods never write (R-GETPURE); existence queries check() their result (R-ERR-EXISTS); header verdict judged by outcome only.'
                 ' Round 6: the front-end existence test follows symbolic links like the open call does (status vs symlink_status modelled).'
-                ' Round 7: open flags and compression reach the backend for every mode (R-HDR-CTOR forwarded clause); R-HIDREL.',
+                ' Round 7: open flags and compression reach the backend for every mode (R-HDR-CTOR forwarded clause); R-HIDREL.'
+                ' Round 8: close() sweeps the open objects on every returning path (R-CLOSE sweep clause).',
     },
     'C11': {
         'technique': 'static analysis: must-pass-through (post-dominance) and who-may-call rules on FileHDF5::flush/close and '
@@ -113,7 +119,8 @@ CHECKS = {
                 'crash-point property outside static reach: NOT decided (partial claim).'
                 " Added: R-FAPL (libver bounds / close degree), R-HIDOWN, R-ERR-EXISTS (stale handles raise instead of answering 'absent')."
                 ' Round 6: flush() reports success only on paths that ran H5Fflush without error (path enumeration; ReadOnly shortcut accepted).'
-                ' Round 7: H5Object releases its id unconditionally (R-HIDREL).',
+                ' Round 7: H5Object releases its id unconditionally (R-HIDREL).'
+                ' Round 8: R-CLOSE sweep clause; no wrapper of an id kind that close() does not sweep can be move-assigned without releasing (R-HIDREL).',
     },
     'C12': {
         'technique': 'static analysis: entropy-source classification of the generator chain in util::createId (def-use over static '
@@ -124,7 +131,8 @@ CHECKS = {
                 'createHeader / forceId, and no create entry point can re-run a creating constructor on an existing entity. '
                 'Collision probability is not decided.'
                 ' Added: R-NAMEFIRST and the R-NOCACHE clauses (a duplicate test that is fooled re-runs the creating constructor on an existing entity).'
-                ' Round 6: Identity carries the given name/id verbatim (R-IDENT); R-ATTRSEARCH.',
+                ' Round 6: Identity carries the given name/id verbatim (R-IDENT); R-ATTRSEARCH.'
+                ' Round 8: R-EXACTCMP.',
     },
     'C13': {
         'technique': 'static analysis: dominance/guard-fact rules at every ticks / sampling-interval sink call site, linear-form check '
@@ -163,7 +171,8 @@ CHECKS = {
                 'the predicates themselves (isScalable, sizes) is not decided.'
                 ' Added: R-VALID-COND (a throwing getter fails the condition), isScalable specification (R-UNIT-SCALE).'
                 ' Round 6: the unit tables behind isScalable are checked here too (R-UNIT-TAB).'
-                ' Round 7: validator and tick setters decide sortedness with one predicate (R-VALID-SORTED).',
+                ' Round 7: validator and tick setters decide sortedness with one predicate (R-VALID-SORTED).'
+                ' Round 8: name-first lookups behind the multi-getters the file validation walks (R-NAMEFIRST, R-LOOKUP).',
     },
     'C04': {
         'technique': 'static analysis: role table of removal sites filled from interface overriders, who-may-call and call-graph '
@@ -176,7 +185,8 @@ CHECKS = {
                 'membership. Bit-identity of all other entities and HDF5 link bookkeeping are not decided.'
                 " Added: raw buffers handed to C APIs were sized, not only reserved (R-RAWBUF, guards removeAllLinks' name loop); no backend object caches a resolved entity (R-NOCACHE)."
                 ' Round 6: by-handle delete/remove overloads identify the entity by its id (R-BYHANDLE; found and fixed D24/D25); R-ATTRSEARCH.'
-                ' Round 7: R-NAMEBUF.',
+                ' Round 7: R-NAMEBUF.'
+                ' Round 8: a DataArray loses its dimension descriptors, a section its own link, before it is unlinked (R-DEL-CYCLE, R-DEL-SELFLINK; guard D30/D31).',
     },
     'C20': {
         'technique': 'static analysis: work-list discipline rule (insertion/removal ends resolved through helpers), guard-fact and '
@@ -214,7 +224,8 @@ CHECKS = {
                 'positions and the padding extent of unspecified dimensions are numeric: NOT decided.'
                 ' Added: the RangeMatch argument is forwarded to every callee (R-FORWARD); per-dimension containers are read at one index (R-PARALLEL); no function-static memo with an incomplete key (R-MEMO); the bounds predicate positionAndExtentInData is itself checked (R-INDATA); exact-hit test of the sampled helper is the polynomial r*interval+offset-position (R-MATCH); swapped-argument rule (R-SWAP); stale-size rule (R-STALE).'
                 ' Round 6: positionToIndex overloads delegate with the position unchanged (R-POSPASS).'
-                ' Round 7: R-UNIT-SCALEPOS with loop-carried state; per-dimension containers only grow at the end (R-ALIGNED).',
+                ' Round 7: R-UNIT-SCALEPOS with loop-carried state; per-dimension containers only grow at the end (R-ALIGNED).'
+                ' Round 8: R-NOSTATIC.',
     },
     'C06': {
         'technique': 'static analysis: abstract interpretation of getOffsetAndCount(MultiTag)/taggedData/featureData (all abstract '
@@ -224,7 +235,8 @@ CHECKS = {
                 'offset handed to the caller (dead-store rule), view after bounds test, indexed/tagged/untagged feature dispatch. '
                 'Element selection for particular floating-point positions is numeric: NOT decided.'
                 ' Added: rows are read at indices[idx] before each use, block reads only under a whole-list test; index bound for indexed/untagged features; R-FORWARD, R-PARALLEL, R-MEMO, R-INDATA, R-PAIR-VEC (no state carried between list elements), R-SWAP, R-STALE.'
-                ' Round 7: R-UNIT-SCALEPOS with loop-carried state; R-ALIGNED.',
+                ' Round 7: R-UNIT-SCALEPOS with loop-carried state; R-ALIGNED.'
+                ' Round 8: R-NOSTATIC.',
     },
     'C17': {
         'technique': 'static analysis: abstract interpretation of dataSlice, DataView (ctor, transform_coordinates, ioRead/ioWrite) and '
@@ -235,7 +247,8 @@ CHECKS = {
                 'translates by the window origin; NDSize <=,<,>,>= have the element-wise meaning the guards rely on; subscripts on '
                 'caller-owned vectors are bounded. Which elements a position pair selects is numeric: NOT decided.'
                 ' Added: NDSize comparisons are treated component-wise by the interpreter; guarded-subtraction idiom; R-INDATA; R-MEMO; R-UNIT-SCALEPOS; R-FILL understands padding through maximumExtents; R-SWAP.'
-                ' Round 7: start > end is tested on the padded vectors that are converted (R-SLICE, syntax-level facts); R-ALIGNED.',
+                ' Round 7: start > end is tested on the padded vectors that are converted (R-SLICE, syntax-level facts); R-ALIGNED.'
+                ' Round 8: R-SETEXTENT.',
     },
     'C08': {
         'technique': 'static analysis: interprocedural clean/dirty typestate over the closed-world call graph and per-function CFGs '
@@ -247,7 +260,8 @@ CHECKS = {
                 'replacement, sources(vector) with an uninitialised handle) are recorded known findings. State equality itself and '
                 'rejections raised inside libhdf5 are not decided.'
                 ' Added: conditional discharges require the validating loop to test under the key the later call uses; name-first lookups (R-NAMEFIRST); optGroup negative-memory clause (R-NOCACHE).'
-                ' Round 7: R-APPEND shape guard; element type compared before a resize (R-TYPEGATE), empty / Nothing columns and ranks above H5S_MAX_RANK refused before anything is created (R-DF-FRONT, R-RANKGATE) - these three guard the defects D26-D28, rejections that come from libhdf5 and that R-MBT does not see.',
+                ' Round 7: R-APPEND shape guard; element type compared before a resize (R-TYPEGATE), empty / Nothing columns and ranks above H5S_MAX_RANK refused before anything is created (R-DF-FRONT, R-RANKGATE) - these three guard the defects D26-D28, rejections that come from libhdf5 and that R-MBT does not see.'
+                ' Round 8: R-SETEXTENT.',
     },
     'C16': {
         'technique': 'static analysis: repository-specific lint set over the resolved program - guard-fact (dominance) rules for '
@@ -260,7 +274,8 @@ CHECKS = {
                 'buffer/count disagreement at I/O primitives, unchecked HDF5 results. Other programs / other idioms are not covered.'
                 ' Added: R-VECFILL, R-RAWBUF, R-COLIDX, R-NULL-CSTR, R-STALE, R-ERR-EXISTS.'
                 ' Round 6: no library value type keeps a reference to a constructor argument outside the reviewed table (R-REFMEMBER).'
-                " Round 7: R-NAMEBUF; memory space is created from the caller's count on every path (R-ROLE).",
+                " Round 7: R-NAMEBUF; memory space is created from the caller's count on every path (R-ROLE)."
+                ' Round 8: no element access before the size test the function itself makes (R-BOUNDBELIEF); R-CALIB no-text clause (guards D29).',
     },
 }
 
